@@ -35,3 +35,23 @@ Example C07_history_example :
   snd (run init [AddAircraft a; SolveForces; SetState 1 0 5; Distributions]) =
   [OSolve [a] [(1, 7, 0)]; OSolve [mk_ac 1 7 0 5 0] [(1, 7, 0)]; ODist [mk_ac 1 7 0 5 0] [mk_ac 1 7 0 5 0] [(1, 7, 0)]].
 Proof. reflexivity. Qed.
+
+(* the same statement one level below the scene, where Python's reference semantics live (Model/Alias.v, Proofs/AliasP.v; fix ebac569): a
+   position handed over as the caller's own array.  With the aircraft keeping a copy, for every history of hand-overs, in-place edits of
+   the caller's arrays and queries, every query is answered with the geometry built for the aircraft's own current position - an edit
+   changes nothing until the array is handed over again, and then the geometry follows.  Keeping the reference, as the pinned snapshot
+   did, refutes it on a four-call history (a simulation loop that re-uses its position array). *)
+From Coq Require Import ZArith.
+From MuxV Require Model.Alias Proofs.AliasP.
+Theorem C07_caller_arrays : forall (es : list Alias.ev) (s : Alias.st), AliasP.coherent s ->
+  Forall (fun o => fst o = snd o) (Alias.run true s es).
+Proof. intros es s H. exact (AliasP.copy_queries_fresh es s H). Qed.
+Print Assumptions C07_caller_arrays.
+Theorem C07_caller_arrays_by_reference_refuted :
+  Alias.run false (Alias.init [[0; 0; -1000]%Z] [0; 0; 0]%Z)
+            [Alias.SetState 0; Alias.CallerWrites 0 [0; 0; -30000]%Z; Alias.SetState 0; Alias.Query]
+  = [([0; 0; -30000]%Z, [0; 0; -1000]%Z)].
+Proof. exact AliasP.alias_refuted. Qed.
+Print Assumptions C07_caller_arrays_by_reference_refuted.
+Example C07_caller_arrays_nonvacuous : AliasP.coherent (Alias.init [[0; 0; -1000]%Z] [0; 0; 0]%Z).
+Proof. exists [0; 0; 0]%Z. split; reflexivity. Qed.
